@@ -23,7 +23,7 @@ func init() {
 			ruleOptionalFields(c, "C18.R2")
 			c.Rule("C18.R3", "inclusive fixed-width loops terminate", 2)
 			ruleInclusiveLoops(c, "C18.R3")
-			c.Rule("C18.R4", "lock pairing / wrapper releasers deferred / lock order", 30)
+			c.Rule("C18.R4", "lock pairing / wrapper releasers deferred / lock order", 45)
 			rulePairing(c, "C18.R4")
 			ruleWrapperDeferred(c, "C18.R4")
 			ruleLockOrder(c, "C18.R4")
